@@ -92,6 +92,7 @@ const (
 	FHeaderDeprecated = "header_marked_deprecated"
 	FSharedResp   = "response_message_shared_across_services"
 	FGoPkgTail    = "go_package_without_explicit_name"
+	FMapWKT       = "map_with_message_values_from_another_package"
 	FPathVarOrder = "path_variables_declared_in_another_order"
 	FMethHdrVariants = "same_method_header_name_with_different_declarations"
 	FInt64Number  = "ann_int64_number"
@@ -124,7 +125,7 @@ var SafeFeatures = []string{FBasePath, FPathVars, FQuery, FQueryOnBody, FHeaders
 	FEnum, FMap, FOneof, FOptional, FRepeated, FTimestamp, FBytes, FRules, FCustomError, FAllKinds, FMultiService, FNameShapes, FSharedPath, FSharedReq}
 
 // LateFeatures are drawn from the side stream.
-var LateFeatures = []string{FQueryCard, FPartialConfig, FSharedMethodNames, FHeaderDeprecated, FSharedResp, FGoPkgTail, FPathVarOrder, FMethHdrVariants}
+var LateFeatures = []string{FQueryCard, FPartialConfig, FSharedMethodNames, FHeaderDeprecated, FSharedResp, FGoPkgTail, FPathVarOrder, FMethHdrVariants, FMapWKT}
 
 var AnnotationFeatures = []string{FInt64Number, FEnumValue, FEnumNumber, FNullable, FEmptyBehav, FTsFormat, FBytesEnc, FFlatten, FOneofDisc, FUnwrap}
 
@@ -438,7 +439,7 @@ func (x *g) bodyField(m *spec.Message, taken map[string]bool, num int32) *spec.F
 	case x.has(FMap) && x.r.chance(1, 5):
 		f.Card = "map"
 		f.MapKey = pick(x.r, mapKeyKinds)
-		if f.Kind == "message" && f.TypeName == ".google.protobuf.Timestamp" {
+		if f.Kind == "message" && f.TypeName == ".google.protobuf.Timestamp" && !(x.has(FMapWKT) && x.r2.chance(1, 2)) {
 			f.TypeName = ""
 			f.Kind = "string"
 		}
